@@ -1,4 +1,5 @@
 import IdenaModel.Model.Flags
+import IdenaModel.Model.FeeRate
 import IdenaModel.Drivers.Util
 /-! Driver for channel C03flags: derived header flags and the validation-period machine on real chain histories.
 `new <flipLotteryNs> <shortNs> <snapshotRange> <statusSwitchRange> <delegationSwitchRange> <discriminationSwitchRange> <genesisAfterUpgrade>`
@@ -57,6 +58,15 @@ def step (st : DSt) (line : String) : DSt × String :=
       let s' := applyBlock st.c st.s i
       ({ st with s := s' }, s!"flags={f} period={s'.period} cnt={s'.cnt} snap={s'.lastSnapshot} empty={showEmpty s'.empty}")
     | _, _, _, _, _, _, _ => (st, "bad-op")
+  -- `fee <prevFeePerGas> <usedGas> <maxBlockGas> <kNum> <kScale> <networkSize>`: the fee rate the block leaves in the state
+  | ["fee", p, u, m, kn, ks, n] =>
+    match p.toNat?, u.toNat?, m.toNat?, kn.toNat?, ks.toNat?, n.toNat? with
+    | some p, some u, some m, some kn, some ks, some n => (st, s!"fee {IdenaModel.FeeRate.nextFee p u m kn ks n}")
+    | _, _, _, _, _, _ => (st, "bad-op")
+  | ["minfee", n] =>
+    match n.toNat? with
+    | some n => (st, s!"fee {IdenaModel.FeeRate.minFee n}")
+    | none => (st, "bad-op")
   | _ => (st, "bad-op")
 
 end IdenaModel.Drv.C03F
